@@ -435,8 +435,9 @@ def wide_cases(rng: Rng, tier):
     here; both optimisation modes, judged by per-threshold counting and against each other."""
     plans = [(61, 100), (99, 100), (41, 200)] if tier == "thorough" else [rng.choice([(61, 100), (99, 100)]), (41, 200)]
     for S, T in plans:
-        n = 24
-        x = ft(rng.grid(n * S, GRID_X), shape=(n, S))
+        n = 48
+        fine = [Fr(k, 128) for k in range(129)]       # 129 distinct scores: every threshold bucket of every class is used
+        x = ft(rng.grid(n * S, fine), shape=(n, S))
         for fn in ("multiclass_binned_precision_recall_curve", "multilabel_binned_precision_recall_curve", "multiclass_binned_auprc", "multilabel_binned_auprc"):
             kw = {"input": x}
             if fn.startswith("multiclass"):
